@@ -65,6 +65,33 @@ def corpus_items(tier):
     return items
 
 
+def tool_items(tier):
+    """Other command-line tools of the package on small corpus files (stdout + every file they write)."""
+    T = TESTS
+    def f(name):
+        return os.path.join(T, name)
+    specs = [
+        ("adapter-fr3d-184D", "rnapolis.adapter", ["adapter", f("184D.cif"), "--external", f("184D-fr3d.txt"), "--tool", "fr3d",
+                                                   "-a", "--csv", "{out}/o.csv", "--json", "{out}/o.json", "--bpseq", "{out}/o.bpseq"], ["184D.cif", "184D-fr3d.txt"]),
+        ("adapter-fr3d-184D-extended", "rnapolis.adapter", ["adapter", f("184D.cif"), "--external", f("184D-fr3d.txt"), "--tool", "fr3d", "-e"], ["184D.cif", "184D-fr3d.txt"]),
+        ("clashfinder-1A1T", "rnapolis.clashfinder", ["clashfinder", f("1A1T_1_B.cif"), "--csv", "{out}/clashes.csv"], ["1A1T_1_B.cif"]),
+        ("clashfinder-1DFU-molprobity", "rnapolis.clashfinder", ["clashfinder", f("1DFU_1_M-N.cif"), "--enable-molprobity-mode", "--ignore-occupancy", "--csv", "{out}/clashes.csv"], ["1DFU_1_M-N.cif"]),
+        ("clashfinder-1ATO", "rnapolis.clashfinder", ["clashfinder", f("1ATO.pdb"), "--nucleic-acid-only", "--csv", "{out}/clashes.csv"], ["1ATO.pdb"]),
+        ("metareader-list-4WTI", "rnapolis.metareader", ["metareader", f("4WTI_1_T-P.cif"), "-l"], ["4WTI_1_T-P.cif"]),
+        ("metareader-csv-1DFU", "rnapolis.metareader", ["metareader", f("1DFU_1_M-N.cif"), "-c", "atom_site", "--csv-directory", "{out}"], ["1DFU_1_M-N.cif"]),
+        ("motif-extractor-bpseq", "rnapolis.motif_extractor", ["motif-extractor", "--bpseq", f("1ET4-A.bpseq"), "--remove-pseudoknots", "--remove-isolated"], ["1ET4-A.bpseq"]),
+        ("motif-extractor-dbn", "rnapolis.motif_extractor", ["motif-extractor", "--dbn", f("1EHZ.dbn")], ["1EHZ.dbn"]),
+        ("splitter-1ATO", "rnapolis.splitter", ["splitter", "-o", "{out}", "-f", "mmCIF", f("1ATO.pdb")], ["1ATO.pdb"]),
+        ("splitter-1A1T", "rnapolis.splitter", ["splitter", "-o", "{out}", "-f", "PDB", f("1A1T_1_B.cif")], ["1A1T_1_B.cif"]),
+        ("unifier-1E7K", "rnapolis.unifier", ["unifier", "-o", "{out}", f("1E7K_1_C.cif"), f("1E7K_1_C_modified.cif")], ["1E7K_1_C.cif", "1E7K_1_C_modified.cif"]),
+    ]
+    items = []
+    for name, module, argv, needs in specs:
+        if all(os.path.exists(f(n)) for n in needs):
+            items.append({"id": "tool/" + name, "type": "tool", "module": module, "argv": argv, "cost": 400000})
+    return items
+
+
 def generated_items(tier, seed):
     out = []
     for i in range(PLAN[tier]["generated"]):
@@ -277,7 +304,7 @@ def check(tier, seed, workers):
     plan = PLAN[tier]
     tmp = os.path.join(runner.base_tmp(), "c14")
     seeds = hashseeds(tier, seed)
-    items = corpus_items(tier) + generated_items(tier, seed)
+    items = corpus_items(tier) + tool_items(tier) + generated_items(tier, seed)
     timeout = float(os.environ.get("VERIF_BUDGET_S") or 0) * 4 or plan["timeout"]
     context = {}
     cells, nontrivial, rows_total, failures = explore(items, seeds, plan["shards"], workers, timeout, tmp,
@@ -377,6 +404,7 @@ def check(tier, seed, workers):
                           "time, so that dependence on what ran before in the process shows up as a digest difference; "
                           "such a difference is replayed by re-running the two complete interpreter contexts",
         "items": {"corpus_file_x_gap_setting": sum(1 for x in items if x["type"] == "file"),
+                  "other_command_line_tools": sum(1 for x in items if x["type"] == "tool"),
                   "generated_structures": sum(1 for x in items if x["type"] == "bpseq")},
         "cells": len(cells),
         "cells_all_dot_brackets_with_2_or_more_members": multi,
